@@ -51,6 +51,7 @@ const builtinPrelude = `(declare-fun Itoa (Int) String)
 (declare-fun JoinF (Slice_String String) String)
 (declare-fun TrimSpaceF (String) String)
 (declare-fun TrimLeftF (String String) String)
+(declare-fun AtoiV (String) Int)
 `
 
 var strSliceTy = types.NewSlice(types.Typ[types.String])
@@ -136,6 +137,34 @@ func init() {
 			e.fr.val[x] = e.define("join", "String", fmt.Sprintf("(JoinF %s %s)", a[0], a[1]))
 			return true
 		},
+		"strings.SplitN": func(e *enc, x *ssa.Call, a []Term) bool {
+			// only n == 2 is given a contract: [before first sep, everything after it], or [s] when sep does not occur
+			c, ok := x.Common().Args[2].(*ssa.Const)
+			if !ok || c.Int64() != 2 {
+				return false
+			}
+			ss := e.needStrSlice()
+			r := e.fresh("splitn", ss)
+			e.assumps["strings.SplitN(s, sep, 2) contract: [s] if sep (non-empty) does not occur, else [text before the first occurrence, text after it]"] = true
+			e.assume(fmt.Sprintf(`(let ((i (str.indexof %[2]s %[3]s 0))) (and (not (nil_%[1]s %[4]s)) (=> (> (str.len %[3]s) 0)
+  (ite (str.contains %[2]s %[3]s)
+     (and (= (len_%[1]s %[4]s) 2) (= (select (arr_%[1]s %[4]s) 0) (str.substr %[2]s 0 i))
+          (= (select (arr_%[1]s %[4]s) 1) (str.substr %[2]s (+ i (str.len %[3]s)) (- (str.len %[2]s) (+ i (str.len %[3]s))))))
+     (and (= (len_%[1]s %[4]s) 1) (= (select (arr_%[1]s %[4]s) 0) %[2]s))))))`, ss, a[0], a[1], r))
+			e.fr.val[x] = r
+			return true
+		},
+		"strconv.Atoi": func(e *enc, x *ssa.Call, a []Term) bool {
+			// (value, error): the value is a function of the text; it is 0 when the text is not a number ("-" for binary files)
+			f := e.uf("AtoiV", []string{"String"}, "Int")
+			v := e.define("atoi", "Int", fmt.Sprintf("(%s %s)", f, a[0]))
+			e.once("atoi#ax", func() {
+				e.decls = append(e.decls, "(assert (= (AtoiV \"-\") 0))", "(assert (= (AtoiV \"\") 0))")
+				e.assumps["strconv.Atoi: deterministic; returns 0 for \"-\" and \"\" (the error is ignored by the callers)"] = true
+			})
+			e.fr.tuples[x] = []Term{v, e.fresh("atoierr", "Int")}
+			return true
+		},
 		"strconv.Itoa": def("String", func(a []Term) Term { return fmt.Sprintf("(Itoa %s)", a[0]) }),
 		"sort.SearchStrings": func(e *enc, x *ssa.Call, a []Term) bool {
 			ss := e.so.of(x.Call.Args[0].Type())
@@ -152,6 +181,7 @@ func init() {
 		"(*regexp.Regexp).MatchString":        regexMatch,
 		"(*regexp.Regexp).FindString":         regexFind,
 		"(*regexp.Regexp).FindStringSubmatch": regexSubmatch,
+		"(*regexp.Regexp).FindAllString":      regexFindAll,
 		"(*regexp.Regexp).ReplaceAllString":   nil,
 	}
 	delete(externals, "(*regexp.Regexp).ReplaceAllString")
@@ -345,6 +375,7 @@ func (e *enc) reSubFacts(pat string, re *smtRegex, s, r Term) {
 		s, re.unanchored(), ss, r, n, ss, r, pos, ss, r, re.core(), ss, r, ss, r))
 	for i := 1; i < n; i++ {
 		e.assume(fmt.Sprintf("(=> (= (len_%s %s) %d) (str.contains (select (arr_%s %s) 0) (select (arr_%s %s) %d)))", ss, r, n, ss, r, ss, r, i))
+		e.assume(fmt.Sprintf("(=> (= (len_%s %s) %d) (and (str.contains %s (select (arr_%s %s) %d)) (<= (str.len (select (arr_%s %s) %d)) (str.len %s))))", ss, r, n, s, ss, r, i, ss, r, i, s))
 		if g := re.groups[i-1]; g != "" {
 			e.assume(fmt.Sprintf("(=> (= (len_%s %s) %d) (str.in_re (select (arr_%s %s) %d) %s))", ss, r, n, ss, r, i, g))
 		}
@@ -370,6 +401,25 @@ func (e *enc) reSubFacts(pat string, re *smtRegex, s, r Term) {
 		}
 		e.assume(fmt.Sprintf("(=> (= (len_%s %s) %d) (= (select (arr_%s %s) 0) %s))", ss, r, n, ss, r, cat))
 	}
+}
+
+// FindAllString(s, -1): the list of non-overlapping matches; only emptiness is related to MatchString
+func regexFindAll(e *enc, x *ssa.Call, a []Term) bool {
+	pat, ok := e.regexOf(x.Common().Args[0])
+	if !ok {
+		return false
+	}
+	re, err := regexToSMT(pat)
+	if err != nil {
+		return false
+	}
+	e.extUsed["regexp "+pat] = true
+	ss := e.needStrSlice()
+	f := e.uf("refindall_"+clean(fmt.Sprintf("%x", hashStr(pat))), []string{"String"}, ss)
+	r := e.define("refindall", ss, fmt.Sprintf("(%s %s)", f, a[1]))
+	e.assume(fmt.Sprintf("(and (>= (len_%s %s) 0) (= (> (len_%s %s) 0) (str.in_re %s %s)))", ss, r, ss, r, a[1], re.unanchored()))
+	e.fr.val[x] = r
+	return true
 }
 
 func regexSubmatch(e *enc, x *ssa.Call, a []Term) bool {
